@@ -146,7 +146,7 @@ def handle (op : String) (args : List String) : Option String :=
         match admPattern kind k A with
         | some adm =>
           let F : IluFactors Rat := { L := L, U := U, D := D }
-          joinSp [showBool (luOnPatternb adm A F), showBool (factorsInPatternb adm F), showBool (luExactb A F)]
+          joinSp [showBool (luOnPatternb adm.1 A F), showBool (factorsInPatternb adm.2 F), showBool (luExactb A F)]
         | none => badInput
       else badInput
   | "relax_spai1_check" =>
